@@ -505,6 +505,36 @@ pub fn make(spec: &FileSpec) -> io::Result<Made> {
     Ok(made)
 }
 
+/// See `make_inner`.
+fn reframe_bgzf(bytes: Vec<u8>, seed: u64) -> Vec<u8> {
+    let Ok(w) = mbgzf::walk(&bytes) else { return bytes };
+    let data = w.data;
+    if data.is_empty() {
+        return bytes;
+    }
+    let mut rng = Rng::new(seed ^ 0x7ef7a3e);
+    let n_cuts = 1 + rng.usize_below(6);
+    let mut cuts: Vec<usize> = (0..n_cuts)
+        .map(|_| if rng.chance(1, 2) { rng.usize_below(data.len().min(400) + 1) } else { rng.usize_below(data.len() + 1) })
+        .collect();
+    cuts.push(data.len());
+    cuts.sort();
+    let mut file = Vec::new();
+    let mut prev = 0;
+    for c in cuts {
+        // (equal cuts give an empty member in the middle of the file)
+        for chunk in data[prev..c].chunks(60_000) {
+            file.extend_from_slice(&mbgzf::rebuild_member(chunk));
+        }
+        if c == prev && rng.chance(1, 3) {
+            file.extend_from_slice(&mbgzf::rebuild_member(&[]));
+        }
+        prev = c;
+    }
+    file.extend_from_slice(&mbgzf::EOF_MARKER);
+    file
+}
+
 /// See `make_inner`: grows l_text by 2..=400 NUL bytes appended to the header text.
 fn pad_bcf_header(kind: Kind, bytes: Vec<u8>, seed: u64) -> Vec<u8> {
     let raw: Vec<u8> = if kind == Kind::Bcf {
@@ -567,6 +597,11 @@ fn make_inner(spec: &FileSpec) -> io::Result<Made> {
     // BCF: a quarter of the files carry a header text padded with extra NULs (l_text counts them; valid,
     // other writers do it), and in the BGZF form a block boundary falls inside the padding
     let bytes = if matches!(kind, Kind::Bcf | Kind::BcfRaw) && spec.seed % 4 == 1 { pad_bcf_header(kind, bytes, spec.seed) } else { bytes };
+    // BGZF containers other than the byte-stream kind: every fifth file is re-framed — the same
+    // uncompressed stream cut into members at seeded offsets (blocks flushed early by another writer,
+    // now and then an empty member): structures such as header name blocks, linear indexes and
+    // records then straddle member boundaries that the noodles writer would only produce after 64 KiB
+    let bytes = if kind.is_bgzf_container() && kind != Kind::Bgzf && spec.seed % 5 == 2 { reframe_bgzf(bytes, spec.seed) } else { bytes };
     let (boundaries, flat) = if kind.is_bgzf_container() {
         bgzf_boundaries(&bytes)
     } else {
